@@ -198,6 +198,8 @@ func TestC07_OnlyTheMatchingTransactionProvesDelivery(t *testing.T) {
 			return data
 		}
 		// submit the proof: assignee reports the tx, the chosen validators supply the evidence
+		// per-voter receipt override (k = position in the submission order); nil = everybody supplies the same receipt
+		var receiptOfVoter func(k int, def *ethtypes.Receipt) *ethtypes.Receipt
 		submit := func(m consensustypes.QueuedSignedMessageI, em *evmtypes.Message, signingID uint64, data []byte, receipt *ethtypes.Receipt, voters []int, altData []byte) {
 			var assignee *chain.Validator
 			for _, v := range c.Vals {
@@ -205,7 +207,7 @@ func TestC07_OnlyTheMatchingTransactionProvesDelivery(t *testing.T) {
 					assignee = v
 				}
 			}
-			mk := func(d []byte) *codectypes.Any {
+			mk := func(d []byte, receipt *ethtypes.Receipt) *codectypes.Any {
 				tx := ethtypes.NewTx(&ethtypes.LegacyTx{Nonce: 9, To: &common.Address{0xc1}, Gas: 500000, GasPrice: big.NewInt(1), Data: d})
 				txbz, _ := tx.MarshalBinary()
 				p := &evmtypes.TxExecutedProof{SerializedTX: txbz}
@@ -223,7 +225,11 @@ func TestC07_OnlyTheMatchingTransactionProvesDelivery(t *testing.T) {
 					d = altData
 				}
 				v := c.Vals[i]
-				txs = append(txs, c.MustSign(v.Actor, &consensustypes.MsgAddEvidence{Metadata: chain.MD(v.Actor), Proof: mk(d), MessageID: m.GetId(), QueueTypeName: q}))
+				rc := receipt
+				if receiptOfVoter != nil {
+					rc = receiptOfVoter(k, receipt)
+				}
+				txs = append(txs, c.MustSign(v.Actor, &consensustypes.MsgAddEvidence{Metadata: chain.MD(v.Actor), Proof: mk(d, rc), MessageID: m.GetId(), QueueTypeName: q}))
 			}
 			blk(txs...)
 			blk()
@@ -243,7 +249,7 @@ func TestC07_OnlyTheMatchingTransactionProvesDelivery(t *testing.T) {
 		m, em := findValsetMsg()
 		nsig := len(m.GetSignData())
 		variant := rapid.SampledFrom([]string{"valid", "valid", "validShorterPrefix", "power+1", "memberChanged", "valsetID+1", "otherRelayer", "gas+1", "sigR", "sigSwap", "otherSelector", "truncated", "extended",
-			"receiptFailed", "missingReceipt", "belowQuorum", "splitEvidence", "replayForSecondMessage"}).Draw(t, "variant")
+			"receiptFailed", "missingReceipt", "belowQuorum", "splitEvidence", "splitReceiptStatus", "replayForSecondMessage"}).Draw(t, "variant")
 		all := make([]int, n)
 		for i := range all {
 			all[i] = i
@@ -288,6 +294,29 @@ func TestC07_OnlyTheMatchingTransactionProvesDelivery(t *testing.T) {
 			receipt = nil
 		case "belowQuorum":
 			voters = all[:1]
+		case "splitReceiptStatus":
+			// the same transaction, but only the first k submitters report a successful receipt, the others a failed one
+			// that is identical otherwise
+			okVoters := rapid.IntRange(1, n-1).Draw(t, "successReporters")
+			receiptOfVoter = func(k int, def *ethtypes.Receipt) *ethtypes.Receipt {
+				if k < okVoters {
+					return def
+				}
+				return &ethtypes.Receipt{Status: 0, CumulativeGasUsed: def.CumulativeGasUsed}
+			}
+			cur, _ := c.App.ValsetKeeper.GetCurrentSnapshot(c.ReadCtx())
+			group := new(big.Int)
+			for k, i := range voters {
+				if k >= okVoters {
+					continue
+				}
+				for _, sv := range cur.Validators {
+					if sv.Address.Equals(c.Vals[i].Val()) {
+						group.Add(group, sv.ShareCount.BigInt())
+					}
+				}
+			}
+			expectEffect = new(big.Int).Mul(group, big.NewInt(3)).Cmp(new(big.Int).Mul(cur.TotalShares.BigInt(), big.NewInt(2))) >= 0
 		}
 		data := encode(p)
 		switch variant {
